@@ -28,6 +28,7 @@ let impl_prev_replied : (int * int, unit) Hashtbl.t = Hashtbl.create 8   (* (cli
 type duprec = { d_h : string; d_pkt : string; d_created : int; mutable d_reply : string option }
 let dupcache : (int * int, duprec) Hashtbl.t = Hashtbl.create 64
 let gone : (int, unit) Hashtbl.t = Hashtbl.create 8
+let gone_srv : (int, unit) Hashtbl.t = Hashtbl.create 8
 let pending_reset : (int, unit) Hashtbl.t = Hashtbl.create 8
 
 (* allocation-failure oracle handed to the model (C19); the proxy's ordinary behaviour is fs_none *)
@@ -40,7 +41,7 @@ let in_fault = ref false    (* the current operation ran with a failed allocatio
 
 let reset () =
   cur_fs := fs_none; dead := false; in_fault := false;
-  Hashtbl.reset txhist; Hashtbl.reset impl_prev; Hashtbl.reset pending_reset; Hashtbl.reset impl_prev_cl; Hashtbl.reset impl_prev_replied; Hashtbl.reset dupcache; Hashtbl.reset gone;
+  Hashtbl.reset txhist; Hashtbl.reset impl_prev; Hashtbl.reset pending_reset; Hashtbl.reset impl_prev_cl; Hashtbl.reset impl_prev_replied; Hashtbl.reset dupcache; Hashtbl.reset gone; Hashtbl.reset gone_srv;
   options := opt_default; clients := []; servers := []; realms := []; st := None; Hashtbl.reset display; diverged := false
 
 let b01 s = (s = "1")
@@ -106,6 +107,7 @@ let refcount (s : state) (h : int) : int =
 
 let print_state opidx (s : state) =
   List.iteri (fun i (sv : server) ->
+      if not (Hashtbl.mem gone_srv i) then
       let b = Buffer.create 256 in
       List.iteri (fun id (sl : slot) ->
           match sl.sl_rq with
@@ -430,8 +432,11 @@ let check_request_policy opidx impl_all c (pkt : n list) =
                     if wf_packet fwd then
                       (match List.find_opt (fun (t, _, _) -> t = 2) attrs, List.find_opt (fun (t, _, _) -> t = 2) (attr_list fwd) with
                        | Some (_, _, v), Some (_, _, v') ->
+                           (* an Accounting-Request is re-encrypted under the zero authenticator it is signed over,
+                              its authenticator field on the wire is the signature *)
+                           let fauth = if code = 4 then repeat N0 16 else take 16 (drop 4 fwd) in
                            let plain_c = rfc_dec md5 cc.cc_secret (take 16 (drop 4 pkt)) v
-                           and plain_s = rfc_dec md5 sc.sc_secret (take 16 (drop 4 fwd)) v' in
+                           and plain_s = rfc_dec md5 sc.sc_secret fauth v' in
                            spec opidx "C01_password_preserved" (plain_c = plain_s) (Printf.sprintf "User-Password of %d octets" (List.length v))
                        | Some _, None -> spec opidx "C01_password_preserved" false "User-Password missing from the forwarded request"
                        | _ -> ())
@@ -701,6 +706,20 @@ let op_dynflush opidx impl_all toks =
       print_state opidx (get_state ())
   | _ -> ()
 
+(* srvgone: the writer ends and frees the server: every slot is released (freeserver -> freerqoutdata) *)
+let op_srvgone opidx toks =
+  match toks with
+  | [ srv ] ->
+      let i = int_of_string srv in
+      if not (Hashtbl.mem gone_srv i) then begin
+        let s = get_state () in
+        let rec go s k = if k >= 256 then s else go (freerqoutdata s (nat_of_int i) (n_of_int k)) (k + 1) in
+        let s = go s 0 in
+        Hashtbl.replace gone_srv i ();
+        st := Some s; print_state opidx s
+      end
+  | _ -> ()
+
 let run_op (opidx : int) (impl_all : string list list) (toks : string list) : bool =
   match toks with
   | "cpkt" :: r -> op_cpkt opidx impl_all r; true
@@ -712,6 +731,7 @@ let run_op (opidx : int) (impl_all : string list list) (toks : string list) : bo
   | "srvset" :: r -> op_srvset opidx r; true
   | "cursor" :: r -> op_cursor opidx r; true
   | "cgone" :: r -> op_cgone opidx r; true
+  | "srvgone" :: r -> op_srvgone opidx r; true
   | "dynflush" :: r -> op_dynflush opidx impl_all r; true
   | _ -> false
 
